@@ -80,20 +80,26 @@ def build_dj(dj_db, style, steps, flt):
 
 def run(ctx):
     ctx.rule = ("behaviours of the composition machine MC_C15: entry style x host steps (where in {n>0, title='a', "
-                "author has name}, join in {inner, outer} on author, order by id desc, annotate) in every order x 8 "
-                "filters; non-trivial = distinct behaviour with >= 2 host steps whose expected rows are a proper, "
+                "author has name}, join in {inner, outer} on author, order by id desc, annotate) in every order x 10 "
+                "filters (thorough: up to two conditions and two pre-joins); non-trivial = distinct behaviour with >= 2 host steps whose expected rows are a proper, "
                 "non-empty subset of the base rows")
     ctx.trusted = ["spec/Rel.tla", "native construction of the base queries in harness/props/c15.py", "SQLite 3.40"]
-    res = tlc.run("MC_C15", constants={"Inst": 0}, keep_lines=lambda r: r.get("k") in ("case", "db"), timeout=3000)
-    ctx.add_tlc(res)
-    if res.violation:
-        ctx.violation({"kind": "model", "inv": res.violation}, {"tlc": res.raw_tail[-2000:]})
-    db = [r for r in res.records if r["k"] == "db"][0]["db"]
-    dj = backends.RelDjango(); dj.load(db)
-    sa = backends.RelSa(); sa.load(db)
-    cases = [r for r in res.records if r["k"] == "case"]
-    for r in cases:
-        check_case(ctx, r, dj, sa)
+    # quick: one base condition and one pre-join per host query, instance 0.  thorough: up to two base conditions and
+    # two pre-joins (author and info) in every order on instance 0 (337 k behaviours), plus the quick machine on instance 1
+    plans = [(0, "FALSE")] if ctx.tier == "quick" else [(0, "TRUE"), (1, "FALSE")]
+    for inst, deep in plans:
+        res = tlc.run("MC_C15", constants={"Inst": inst, "Deep": deep}, keep_lines=lambda r: r.get("k") in ("case", "db"),
+                      timeout=7000, heap="12g")
+        ctx.add_tlc(res)
+        if res.violation:
+            ctx.violation({"kind": "model", "inv": res.violation}, {"tlc": res.raw_tail[-2000:]})
+        db = [r for r in res.records if r["k"] == "db"][0]["db"]
+        dj = backends.RelDjango(); dj.load(db)
+        sa = backends.RelSa(); sa.load(db)
+        for r in res.records:
+            if r["k"] == "case":
+                r["inst"] = inst
+                check_case(ctx, r, dj, sa)
     registry(ctx)
     ctx.exhaustive = True
 
@@ -157,7 +163,7 @@ def replay(ctx, rep):
     if "case" not in d:
         registry(ctx)
         return
-    res = tlc.run("MC_C15", constants={"Inst": 0}, keep_lines=lambda r: r.get("k") == "db", timeout=3000)
+    res = tlc.run("MC_C15", constants={"Inst": rep["detail"]["case"].get("inst", 0), "Deep": "FALSE"}, keep_lines=lambda r: r.get("k") == "db", timeout=3000)
     db = res.records[0]["db"]
     dj = backends.RelDjango(); dj.load(db)
     sa = backends.RelSa(); sa.load(db)
